@@ -149,6 +149,19 @@ CLAIMED = {
          "sequentialised (stack-like nesting only); pthread_*, mutex, condition variable and clock are harness stubs; typed static pools replace the "
          "allocator for the two object kinds the thread code allocates.",
     technique="CBMC bounded symbolic execution of posix/thread.c + thread_shared.c over a sequentialising pthread model with solver-chosen schedule"),
+ "C18": dict(
+    text="Linked hash table and FIFO / LIFO / LRU caches: EVERY program of 3 operations (4 in the thorough tier) in which the solver chooses each operation "
+         "(put, find, remove, clear; use-lru-element and get-mru-element for the LRU cache) and each key (4 key objects in 3 equality classes, so equal-but-"
+         "distinct key pointers occur), for capacities 1..3, plus programs of 5-6 operations with fixed puts around free operations: after every "
+         "operation the real iteration list, element count, find results and the key/value destructor counts equal an ordered reference map that "
+         "implements the stated policy (insertion order; re-insert replaces and moves to the back; FIFO evicts the oldest, LIFO the most recent before "
+         "the new one, LRU the least recently used where find/put/use count as use); the cache never exceeds its maximum and retains the entry just "
+         "inserted; displaced nodes are released exactly once, none leaks, and tear-down destroys every remaining entry exactly once.",
+    note="COMPOSITIONAL: source/hash_table.c is replaced by the map its contracts describe (stubs/hash_model.c: find/create/remove/clear/count; a key "
+         "matches iff equal hash code and s_safe_eq_check); the real table is decided against those contracts in C02. Real code executed: all of "
+         "linked_hash_table.c, cache.c, fifo_cache.c, lifo_cache.c, lru_cache.c, linked_list.inl. Not covered: element-pointer invalidation by the real "
+         "table, allocation failure, programs longer than the bound.",
+    technique="CBMC bounded symbolic execution of the real cache / linked-hash-table code over a contract model of the hash table; operations and keys are solver-chosen"),
 }
 NA = {
  "C03": "small-block allocator: its page lookup masks addresses (addr & ~(PAGE-1)) over a pointer-rich heap; from-init histories did not finish symbolic "
@@ -162,10 +175,6 @@ NA = {
         "not a solver verdict over inputs, so it is not claimed. Memory safety of the parser on arbitrary short documents is part of C04.",
  "C17": "memory tracer: histories go through aws_hash_table with 1024 slots and lookup3 over pointer bytes; the 4-slot hash-table steps alone need 3-13 minutes "
         "each (C02) and from-init hash-table use exhausts 12 GB, so a tracer history is out of reach; the thread clause needs interleavings CBMC rejects",
- "C18": "linked hash table and caches: harness with a reference ordered map was built (harness/C18, function-pointer targets restricted so that the destructor "
-        "chain is no longer 'recursive'); programs with one put or put+find/remove are decided in 5-20 s, but every program with TWO puts (the first that "
-        "makes order, replacement or eviction observable) exhausts 12 GB in CBMC's propositional reduction even with concrete hash values, and with "
-        "fully concrete keys the run is enumeration, not a solver verdict; so nothing meaningful about order/eviction can be claimed",
  "C19": "date-time: formatting and the calendar are glibc's strftime/timegm/gmtime_r (outside /repo, no encodable semantics); the library's own parsers "
         "were planned (DESIGN.md C19) but not reached in this round",
 }
